@@ -80,8 +80,6 @@ def run_c01(tier, seed):
                     elif pos1 != len(one) or not gen.same(r2, expect) or tail != b"\xa5":
                         res.fail("exact_consumption", f"pos {pos1} vs {len(one)}, tail {tail!r}", case, rp)
                 guarded(res, "roundtrip", case, rp, body)
-    res.bounds = {"schemas": "curated + all trees <= %d nodes" % (3 if tier == "quick" else 4),
-                  "data": "boundary values per leaf, one position varied at a time + seeded combos"}
     return res
 
 
